@@ -14,6 +14,10 @@
 #include <kernel/lafem/vector_mirror.hpp>
 #include <kernel/global/gate.hpp>
 #include <kernel/global/muxer.hpp>
+#include <kernel/global/vector.hpp>
+#include <kernel/global/filter.hpp>
+#include <kernel/global/splitter.hpp>
+#include <kernel/lafem/unit_filter.hpp>
 #include <kernel/lafem/tuple_vector.hpp>
 #include <kernel/lafem/tuple_mirror.hpp>
 #include <kernel/lafem/power_vector.hpp>
@@ -265,6 +269,261 @@ static void op_mirror(Cur& c, std::ostream& o, bool scatter, Index bs)
   else { m.gather(buf, vec, boff); show_vec(o, buf); }
 }
 
+// ------------------------------------------------------------------------------------------------------------------
+// more of the Global layer.  Everything local is the real code (Global::Vector members, Gate::from_1_to_0,
+// DenseVector reductions, CSR kernels, Global::Filter<UnitFilter>); the collectives (allreduce, vector exchange)
+// are emulated as before, because Gate::sum/min/max/dot and SynchVectorTicket degenerate without MPI.
+// ------------------------------------------------------------------------------------------------------------------
+
+template<typename VT_>
+static void op_norm(Cur& c, std::ostream& o)
+{
+  auto ps = read_decomp(c);
+  std::vector<VT_> xs;
+  for(std::size_t r = 0; r < ps.size(); ++r) xs.push_back(make_vec<VT_>(ps[r].n, read_rats(c)));
+  Gates<VT_> G(ps);
+  Q sum(0);
+  for(std::size_t r = 0; r < ps.size(); ++r)
+  {
+    const auto& g = *G.gates[r];
+    sum = sum + (g.get_ranks().empty() ? xs[r].dot(xs[r]) : g.get_freqs().triple_dot(xs[r], xs[r]));   // Gate::dot(x, x)
+  }
+  o << "N " << sum.str() << " " << Math::sqrt(sum).str();   // Global::Vector::norm2sqr / norm2
+}
+
+template<typename VT_>
+static void op_vmax(Cur& c, std::ostream& o)
+{
+  auto ps = read_decomp(c);
+  bool first = true;
+  Q maxabs(0), minabs(0), maxel(0), minel(0);
+  for(std::size_t r = 0; r < ps.size(); ++r)
+  {
+    VT_ x = make_vec<VT_>(ps[r].n, read_rats(c));
+    // local parts of Global::Vector::max_abs_element / min_abs_element / max_element_async / min_element_async
+    Q a = x.max_abs_element(), b = x.min_abs_element(), d = x.max_element(), e = x.min_element();
+    // Gate::max / Gate::min (allreduce emulated)
+    if(first || a > maxabs) maxabs = a;
+    if(first || b < minabs) minabs = b;
+    if(first || d > maxel) maxel = d;
+    if(first || e < minel) minel = e;
+    first = false;
+  }
+  o << "M " << maxabs.str() << " " << minabs.str() << " " << maxel.str() << " " << minel.str();
+}
+
+static void op_gred(Cur& c, std::ostream& o)
+{
+  // Gate::sum / min / max / norm2: per rank the SynchScalarTicket is constructed and waited for (no-MPI version
+  // returns the rank's own value, norm2 squares it); the reduction over the ranks is emulated
+  auto l = read_rats(c);
+  Dist::Comm comm(Dist::Comm::world());
+  Global::Gate<LAFEM::DenseVector<Q, Index>, MirrorT> gate(comm);
+  Q sum(0), mn(0), mx(0), sq(0);
+  for(std::size_t r = 0; r < l.size(); ++r)
+  {
+    Q s = gate.sum(l[r]), a = gate.min(l[r]), b = gate.max(l[r]);
+    Global::SynchScalarTicket<Q> t(l[r] * l[r], comm, Dist::op_sum, false);   // what norm2_async reduces
+    Q q = t.wait();
+    sum = sum + s; sq = sq + q;
+    if(r == 0 || a < mn) mn = a;
+    if(r == 0 || b > mx) mx = b;
+  }
+  o << "R " << sum.str() << " " << mn.str() << " " << mx.str() << " " << Math::sqrt(sq).str();
+}
+
+template<typename VT_>
+static void op_vops(Cur& c, std::ostream& o)
+{
+  typedef Global::Vector<VT_, MirrorT> GV;
+  Index mode = c.idx();
+  Q a = Q::parse(c.str()), b = Q::parse(c.str());
+  auto ps = read_decomp(c);
+  std::vector<std::vector<Index>> ords;
+  for(std::size_t r = 0; r < ps.size(); ++r) ords.push_back(read_idx(c));
+  Gates<VT_> G(ps);
+  std::vector<GV> ys, xs, rs;
+  for(std::size_t r = 0; r < ps.size(); ++r) ys.emplace_back(G.gates[r].get(), make_vec<VT_>(ps[r].n, read_rats(c)));
+  for(std::size_t r = 0; r < ps.size(); ++r) xs.emplace_back(G.gates[r].get(), make_vec<VT_>(ps[r].n, read_rats(c)));
+  std::vector<VT_> loc;
+  for(std::size_t r = 0; r < ps.size(); ++r)
+  {
+    GV rv(G.gates[r].get(), VT_(ps[r].n));
+    rv.copy(ys[r]);               // Global::Vector::copy
+    rv.axpy(xs[r], a);            // Global::Vector::axpy
+    rv.scale(rv, b);              // Global::Vector::scale
+    if(mode != 0) rv.from_1_to_0();   // first half of Global::Vector::sync_1
+    loc.push_back(rv.local().clone());
+  }
+  if(mode != 0 && !emulated_sync0(G, loc, ords)) { o << "DEADLOCK"; return; }
+  o << "V";
+  for(auto& v : loc) show_vec(o, v);
+}
+
+typedef LAFEM::SparseMatrixCSR<Q, Index> CsrT;
+
+static CsrT read_csr(Cur& c, Index ncols)
+{
+  Index nrows = c.idx();
+  std::vector<Index> ptr(1, 0), col; std::vector<Q> val;
+  for(Index i = 0; i < nrows; ++i)
+  {
+    Index k = c.idx();
+    for(Index j = 0; j < k; ++j) { col.push_back(c.idx()); val.push_back(Q::parse(c.str())); }
+    ptr.push_back(Index(col.size()));
+  }
+  LAFEM::DenseVector<Index, Index> vptr(Index(ptr.size())), vcol(Index(col.size()));
+  LAFEM::DenseVector<Q, Index> vval(Index(val.size()));
+  for(std::size_t i = 0; i < ptr.size(); ++i) vptr.elements()[i] = ptr[i];
+  for(std::size_t i = 0; i < col.size(); ++i) { vcol.elements()[i] = col[i]; vval.elements()[i] = val[i]; }
+  return CsrT(nrows, ncols, vcol, vval, vptr);
+}
+
+static void op_gapply2(Cur& c, std::ostream& o)
+{
+  typedef LAFEM::DenseVector<Q, Index> VT;
+  typedef Global::Vector<VT, MirrorT> GV;
+  Q alpha = Q::parse(c.str());
+  auto ps = read_decomp(c);
+  std::vector<std::vector<Index>> ords;
+  for(std::size_t r = 0; r < ps.size(); ++r) ords.push_back(read_idx(c));
+  std::vector<CsrT> mats;
+  for(std::size_t r = 0; r < ps.size(); ++r) mats.push_back(read_csr(c, ps[r].n));
+  Gates<VT> G(ps);
+  std::vector<GV> xs, ys;
+  for(std::size_t r = 0; r < ps.size(); ++r) xs.emplace_back(G.gates[r].get(), make_vec<VT>(ps[r].n, read_rats(c)));
+  for(std::size_t r = 0; r < ps.size(); ++r) ys.emplace_back(G.gates[r].get(), make_vec<VT>(ps[r].n, read_rats(c)));
+  std::vector<VT> loc;
+  for(std::size_t r = 0; r < ps.size(); ++r)
+  {
+    // Global::Matrix::apply(r, x, y, alpha) line by line; r.sync_0() is the emulated exchange below
+    GV rv(G.gates[r].get(), VT(ps[r].n));
+    rv.copy(ys[r]);
+    rv.from_1_to_0();
+    mats[r].apply(rv.local(), xs[r].local(), rv.local(), alpha);
+    loc.push_back(rv.local().clone());
+  }
+  if(!emulated_sync0(G, loc, ords)) { o << "DEADLOCK"; return; }
+  o << "V";
+  for(auto& v : loc) show_vec(o, v);
+}
+
+static void op_gdiag(Cur& c, std::ostream& o)
+{
+  typedef LAFEM::DenseVector<Q, Index> VT;
+  Index kind = c.idx();
+  auto ps = read_decomp(c);
+  std::vector<std::vector<Index>> ords;
+  for(std::size_t r = 0; r < ps.size(); ++r) ords.push_back(read_idx(c));
+  Gates<VT> G(ps);
+  std::vector<VT> loc;
+  for(std::size_t r = 0; r < ps.size(); ++r)
+  {
+    CsrT m = read_csr(c, ps[r].n);
+    VT d(ps[r].n);
+    // Global::Matrix::extract_diag / lump_rows: local kernel, then sync_0
+    if(kind == 0) m.extract_diag(d); else m.lump_rows(d);
+    loc.push_back(std::move(d));
+  }
+  if(!emulated_sync0(G, loc, ords)) { o << "DEADLOCK"; return; }
+  o << "V";
+  for(auto& v : loc) show_vec(o, v);
+}
+
+static void op_gfilter(Cur& c, std::ostream& o)
+{
+  typedef LAFEM::DenseVector<Q, Index> VT;
+  typedef LAFEM::UnitFilter<Q, Index> UF;
+  typedef Global::Filter<UF, MirrorT> GF;
+  typedef Global::Vector<VT, MirrorT> GV;
+  Index zero = c.idx();
+  auto ps = read_decomp(c);
+  Gates<VT> G(ps);
+  std::vector<GF> fs;
+  for(std::size_t r = 0; r < ps.size(); ++r)
+  {
+    fs.emplace_back(ps[r].n);
+    Index k = c.idx();
+    for(Index j = 0; j < k; ++j) { Index i = c.idx(); Q a = Q::parse(c.str()); fs.back().local().add(i, a); }
+  }
+  o << "V";
+  for(std::size_t r = 0; r < ps.size(); ++r)
+  {
+    GV v(G.gates[r].get(), make_vec<VT>(ps[r].n, read_rats(c)));
+    if(zero == 0) { fs[r].filter_rhs(v); GV w = v.clone(LAFEM::CloneMode::Deep); fs[r].filter_sol(w); w.axpy(v, Q(-1)); if(w.local().max_abs_element() != Q(0)) { o << " SOL-RHS-DIFFER"; } }
+    else { fs[r].filter_def(v); GV w = v.clone(LAFEM::CloneMode::Deep); fs[r].filter_cor(w); w.axpy(v, Q(-1)); if(w.local().max_abs_element() != Q(0)) { o << " COR-DEF-DIFFER"; } }
+    show_vec(o, v.local());
+  }
+}
+
+// Global::Splitter (base splitter): real set_root / push_patch / set_base_vector_template / compile and the real
+// from_1_to_0 conversion of Splitter::join; the muxer's MPI_Gather / MPI_Scatter are emulated as in composite.hpp
+static void op_splitter(Cur& c, std::ostream& o, bool join)
+{
+  typedef LAFEM::DenseVector<Q, Index> VT;
+  typedef Global::Splitter<VT, MirrorT> SplT;
+  typedef Global::Vector<VT, MirrorT> GV;
+  auto ps = read_decomp(c);
+  const Index np = Index(ps.size());
+  Index nbase = c.idx();
+  std::vector<std::vector<Index>> rm, bm;
+  for(Index r = 0; r < np; ++r) rm.push_back(read_idx(c));
+  for(Index r = 0; r < np; ++r) bm.push_back(read_idx(c));
+  Gates<VT> G(ps);
+  Dist::Comm comm(Dist::Comm::world());
+  std::vector<std::unique_ptr<SplT>> spl;
+  for(Index r = 0; r < np; ++r)
+  {
+    spl.emplace_back(new SplT());
+    spl[r]->set_root(&comm, 0, make_mirror(ps[r].n, rm[r]));
+  }
+  for(Index r = 0; r < np; ++r) spl[0]->push_patch(make_mirror(nbase, bm[r]));
+  spl[0]->set_base_vector_template(VT(nbase, Q(0)));
+  spl[0]->compile(VT(ps[0].n));
+  const Index B = spl[0]->_muxer._buffer_size;
+  for(Index r = 1; r < np; ++r)
+  {
+    XASSERT(B >= spl[r]->get_muxer().get_parent_mirror().buffer_size(VT(ps[r].n)));
+    spl[r]->_muxer._buffer_size = B;
+  }
+  const auto& patch_mirrors = spl[0]->get_muxer().get_child_mirrors();
+  if(join)
+  {
+    BufferT child_buffers(B * np, Q(0));
+    for(Index r = 0; r < np; ++r)
+    {
+      GV v(G.gates[r].get(), make_vec<VT>(ps[r].n, read_rats(c)));
+      // Splitter::join: type-0 copy of the input, then muxer join / join_send
+      GV v0 = v.clone(LAFEM::CloneMode::Deep);
+      v0.from_1_to_0();
+      BufferT parent_buffer(B, Q(0));
+      spl[r]->get_muxer().get_parent_mirror().gather(parent_buffer, v0.local());
+      for(Index i = 0; i < B; ++i) child_buffers.elements()[r * B + i] = parent_buffer.elements()[i];
+    }
+    VT base = spl[0]->create_base_vector();
+    base.format();
+    for(Index r = 0; r < np; ++r) patch_mirrors.at(r).scatter_axpy(base, child_buffers, Q(1), r * B);
+    o << "B";
+    show_vec(o, base);
+  }
+  else
+  {
+    VT base = make_vec<VT>(nbase, read_rats(c));
+    BufferT child_buffers(B * np, Q(0));
+    for(Index r = 0; r < np; ++r) patch_mirrors.at(r).gather(child_buffers, base, r * B);
+    o << "V";
+    for(Index r = 0; r < np; ++r)
+    {
+      BufferT parent_buffer(B, Q(0));
+      for(Index i = 0; i < B; ++i) parent_buffer.elements()[i] = child_buffers.elements()[r * B + i];
+      VT trg(ps[r].n);
+      trg.format();
+      spl[r]->get_muxer().get_parent_mirror().scatter_axpy(trg, parent_buffer);
+      show_vec(o, trg);
+    }
+  }
+}
+
 template<typename VT_>
 static bool dispatch(const std::string& op, Cur& c, std::ostream& o, Index bs)
 {
@@ -272,6 +531,9 @@ static bool dispatch(const std::string& op, Cur& c, std::ostream& o, Index bs)
   else if(op == "sync0") op_sync<VT_>(c, o, false);
   else if(op == "sync1") op_sync<VT_>(c, o, true);
   else if(op == "dot") op_dot<VT_>(c, o);
+  else if(op == "norm") op_norm<VT_>(c, o);
+  else if(op == "vmax") op_vmax<VT_>(c, o);
+  else if(op == "vops") op_vops<VT_>(c, o);
   else if(op == "mgather") op_mirror<VT_>(c, o, false, bs);
   else if(op == "mscatter") op_mirror<VT_>(c, o, true, bs);
   else return false;
@@ -290,7 +552,14 @@ static void handle(const verif::Tokens& t, std::ostream& o)
     return;
   }
   if(op == "gapply") { op_gapply(c, o); return; }
-  if(op == "freqs" || op == "sync0" || op == "sync1" || op == "dot" || op == "mgather" || op == "mscatter")
+  if(op == "gapply2") { op_gapply2(c, o); return; }
+  if(op == "gdiag") { op_gdiag(c, o); return; }
+  if(op == "gfilter") { op_gfilter(c, o); return; }
+  if(op == "gred") { op_gred(c, o); return; }
+  if(op == "spljoin") { op_splitter(c, o, true); return; }
+  if(op == "splsplit") { op_splitter(c, o, false); return; }
+  if(op == "freqs" || op == "sync0" || op == "sync1" || op == "dot" || op == "mgather" || op == "mscatter"
+    || op == "norm" || op == "vmax" || op == "vops")
   {
     Index bs = c.idx();
     bool ok = false;
